@@ -25,7 +25,11 @@ LEVEL_TEXT = ("Theorems (Coq, all inputs, over the reals): the dispatch of Integ
               "level by level by the harness with the same method_parameter; the fixed rules evaluate n points per level; limits of different axes that coincide; nearly equal limits; "
               "re-entrant user functions; explicit numbers of points of Gauss-Legendre_2 up to several thousand and recursion depths of Gauss-Kronrod up to 100; azimuth ranges anywhere on the real line "
               "(negative, beyond 2 pi, exact quarter/half/full/double turns) and cosine ranges in every orientation; call histories (sessions of several calls in one process, every case line in a process "
-              "of its own forked before any call of the library): each answer is compared bit for bit with the answer of the same call in a process that has made no other call, besides the model and the closed form. Known findings K-C13-1: Tanh-Sinh on intervals narrow relative to their position; K-C13-2: a panel of the adaptive Simpson rule accepted by its "
+              "of its own forked before any call of the library): each answer is compared bit for bit with the answer of the same call in a process that has made no other call, besides the model and the closed form; "
+              "calls made before main (the harness executes itself anew and makes the call while the namespace-scope objects of its own translation unit, linked in front of the library, are initialised: every method, default and explicit "
+              "parameter, every entry point), compared with the same call made from main (theorem for the model: C13_answer_independent_of_initialisation_phase); axes on scales of their own (2^-900 .. 2^900, mixed within one call, "
+              "so that the product of the widths under- or overflows while the integral is an ordinary number); the nested trapezoidal rule with one curved level at every position (compared bit for bit with boost's rule nested by the harness, "
+              "and with the closed form at the accuracy of one level). Known findings K-C13-1: Tanh-Sinh on intervals narrow relative to their position; K-C13-2: a panel of the adaptive Simpson rule accepted by its "
               "|S2-S| test although it is off by far more than the tolerance.")
 LEVEL_NOTE = ("Coq 8.16.1 kernel; theorems over R use the standard library's real-number axioms and Coquelicot's RInt (axioms listed in the evidence); premises carried by the theorems: "
               "exactness of the selected 1-D back end on the integrands that occur, continuity/integrability of the integrand; boost::math::quadrature (trapezoidal, gauss<30>, "
@@ -34,7 +38,9 @@ TOL = (1e-12, 0.0)
 ALLOW_CRASH = True          # a crash is reported by predicates() below (same message), with a signature that separates the known abort K-C13-1 from any other
 TRUSTED = ["boost::math::quadrature back ends are a Section variable of the model (instantiated by a 2-panel 30-point Gauss-Legendre stand-in in the OCaml driver)",
            "closed-form antiderivatives used by the S4 predicates (checks/C13.py) evaluated with Python's math library"]
-ASSUMPTIONS = ["direction-dependent integrands of the spherical overload (linear in the components of the vector) depend on the direction through vz only where the cosine range comes within 0.1 of a pole: vx, vy carry sqrt(1 - cos_theta^2), "
+ASSUMPTIONS = ["a call 'before main' is made from the constructor of the last namespace-scope object of the harness's translation unit, which the link line puts in front of libphysica.a: with GNU ld / lld the initialisers of that "
+               "translation unit run before those of the library's translation units (the situation of a caller's namespace-scope constant initialised with an integral)",
+               "direction-dependent integrands of the spherical overload (linear in the components of the vector) depend on the direction through vz only where the cosine range comes within 0.1 of a pole: vx, vy carry sqrt(1 - cos_theta^2), "
                "which is not a smooth function of the integration variable there",
                "accuracy clauses (1e-9 relative; 1e-6 Trapezoidal) are decided on the implementation against closed-form integrals for the generated smooth families, with slack dim*accuracy*L1-norm of the integrand; they are not theorems",
                "'smooth' is instantiated as: damped oscillations exp(-a v)cos(w v) with at most two periods on the interval, 1/(1+k v^2) with k<=2, Gaussians exp(-k (v-mu)^2) with k<=4, polynomials of degree <= 3, on intervals of width 0.5..1.5 "
@@ -376,6 +382,7 @@ def generate(rng, tier):
                                ("nested3d", method, "o%d" % o)))
 
     # ---- spherical overload
+    trap_o = rng.choice([0, 5])
     for _ in range(rep):
         for method in METHODS:
             for o in range(8):
@@ -385,7 +392,7 @@ def generate(rng, tier):
                 if not orr: r1, r2 = r2, r1
                 full = o in (0, 7) or rng.random() < 0.2
                 if method in ("Tanh-Sinh", "Trapezoidal", "Gauss-Kronrod") and o not in (0, 2, 5, 7) and not big: continue
-                if method == "Trapezoidal" and o not in (0, 5) and not big: continue            # about 1 s each
+                if method == "Trapezoidal" and o != trap_o and not big: continue            # about 1.5 s each (0.6e6 evaluations, and as many for the direct nesting)
                 p = P(method, rng.random() < 0.5)
                 if method == "Gauss-Legendre_2" and p > 31: p = 24
                 radial = full or method in ("Trapezoidal", "Adaptive-Simpson") or rng.random() < 0.4
@@ -430,8 +437,8 @@ def generate(rng, tier):
 def gen_trapezoid_levels(rng, big):
     cs = []
     for dd in (2, 3):
-        for k in range(dd):
-            for o in (range(2 ** dd) if big else [rng.randrange(2 ** dd)]):
+        for k in (range(dd) if big or dd == 2 else sorted(rng.sample(range(3), 2))):      # (three dimensions: 1.2e6 evaluations per case with the direct nesting)
+            for o in ((range(4) if dd == 2 else sorted(rng.sample(range(8), 4))) if big else [rng.randrange(2 ** dd)]):
                 lims = [limits(rng, j, bool(o >> j & 1)) for j in range(dd)]
                 facs = [rand_fac(rng, *lims[j]) if j == k else rand_fac(rng, *lims[j], affine=True) for j in range(dd)]
                 if not facs[k].curved(): facs[k] = Fac("expdec", rng.uniform(0.8, 1.5))
